@@ -484,11 +484,14 @@ def make_predict_harness(cfg, tw):
     uns_mod = tw.mod("opfython.models.unsupervised")
     sup_mod = tw.mod("opfython.models.supervised")
 
+    rows, qrows = _pred_rows(cfg)
+
     def harness():
         eng = core.engine()
-        N = n + nq
-        # T[q][t]: distance between sample n+q and training sample t, stored in a full (N x N) table so that
-        # both weight branches address it the way the real code does
+        N = max(rows + qrows) + 1
+        # T[qrows[q]][rows[t]]: distance between query q and training sample t, stored in a full (N x N) table so
+        # that both weight branches address it the way the real code does (rows/qrows default to 0..n-1, n..n+nq-1;
+        # cfg["idx"]/cfg["qidx"]: the samples stand for permuted rows of a larger table)
         T = models.sym_matrix(eng, N, N, symmetric=False, diag="free", name="t")
         cost = [eng.real("cost%d" % i) for i in range(n)]
         plab = [eng.int("pl%d" % i, 0, 2) for i in range(n)]
@@ -503,7 +506,7 @@ def make_predict_harness(cfg, tw):
 
             def build_sup(rel=None):
                 o = models.build_opf(sup_mod.SupervisedOPF, branch, T)
-                X, Y, I = models.data_for(branch, n, [0] * n)
+                X, Y, I = models.data_for(branch, n, [0] * n, idx=rows)
                 gg = tw.mod("opfython.core").Subgraph(X, Y, I)
                 gg.idx_nodes = list(order)
                 for i in range(n):
@@ -525,14 +528,14 @@ def make_predict_harness(cfg, tw):
                 fresh = []
                 for q in range(nq):
                     o2, _ = build_sup()
-                    Xq, _, Iq = models.data_for(branch, 1, None, idx=[n + q])
+                    Xq, _, Iq = models.data_for(branch, 1, None, idx=[qrows[q]])
                     fresh.append(o2.predict(Xq, Iq))
             opf, g = build_sup(rel)
         else:
             cls = knn_mod.KNNSupervisedOPF if model == "knn" else uns_mod.UnsupervisedOPF
             kw = dict(max_k=k) if model == "knn" else dict(min_k=1, max_k=k)
             opf = models.build_opf(cls, branch, T, **kw)
-            g, _ = build_knn_graph(tw, branch, n, T, [0] * n)
+            g, _ = build_knn_graph(tw, branch, n, T, [0] * n, idx=rows)
             const = eng.real("const")
             mind, maxd = eng.real("mind"), eng.real("maxd")
             eng.assume(z3.And(const.e > 0, const.e <= 1000000, mind.e <= maxd.e, mind.e >= 0, maxd.e <= 1))
@@ -551,11 +554,16 @@ def make_predict_harness(cfg, tw):
         results = []
         snaps = [snapshot(opf, model)]
         for b in batches:
-            Xq, _, Iq = models.data_for(branch, len(b), None, idx=[n + q for q in b])
+            Xq, _, Iq = models.data_for(branch, len(b), None, idx=[qrows[q] for q in b])
             results.append(opf.predict(Xq, Iq))
             snaps.append(snapshot(opf, model))
         return dict(T=T, st=st, results=results, snaps=snaps, opf=opf, fresh=fresh)
     return harness
+
+
+def _pred_rows(cfg):
+    n, nq = cfg["n"], cfg["nq"]
+    return list(cfg.get("idx") or range(n)), list(cfg.get("qidx") or range(n, n + nq))
 
 
 def snapshot(opf, model):
@@ -571,7 +579,8 @@ def predict_rule_terms(cfg, out, q):
     """oracle for one query q: list of (label, cluster) alternatives as z3 constraints over the outputs"""
     n, k, model = cfg["n"], cfg["k"], cfg["model"]
     T, st = out["T"], out["st"]
-    d = [to_real(T[n + q][t]) for t in range(n)]
+    rows, qrows = _pred_rows(cfg)
+    d = [to_real(T[qrows[q]][rows[t]]) for t in range(n)]
     cost = [to_real(c) for c in st["cost"]]
     const, mind, maxd = to_real(st["const"]), to_real(st["mind"]), to_real(st["maxd"])
     kk = min(k, n)
@@ -605,11 +614,12 @@ def predict_post(eng, cfg, out, info):
     if prop == "C03":
         # state-injected supervised forest: returned label is the label of an exhaustive minimiser
         T = out["T"]
+        rows, qrows = _pred_rows(cfg)
         cost = [to_real(c) for c in st["cost"]]
         for bi, b in enumerate(batches):
             for pos, q in enumerate(b):
                 lab, _ = label_of(bi, pos)
-                d = [to_real(T[t][n + q]) for t in range(n)]
+                d = [to_real(T[rows[t]][qrows[q]]) for t in range(n)]
                 val = [zmax(cost[t], d[t]) for t in range(n)]
                 alts = [z3.And([val[t] <= val[s] for s in range(n) if s != t] + [lab == plab[t]]) for t in range(n)]
                 eng.check("prediction-is-an-exhaustive-minimiser[b%d,p%d]" % (bi, pos), z3.Or(alts), info)
